@@ -1,7 +1,8 @@
 #!/bin/sh
 # usage: tlc.sh <workers> <metadir> <cfg> <tla> [extra TLC args...]
 # Lean JVM settings (see DESIGN.md section 9): serial GC, small stack, explicit heap.
+# TLC and SANY leave one scratch directory per run in java.io.tmpdir: the caller passes a private one (TLC_TMP) and removes it.
 W="$1"; MD="$2"; CFG="$3"; TLA="$4"; shift 4
-exec java -XX:+UseSerialGC -Xss${TLC_XSS:-16m} -Xmx${TLC_XMX:-4g} ${TLC_JVM_OPTS:-} \
+exec java -XX:+UseSerialGC -Xss${TLC_XSS:-16m} -Xmx${TLC_XMX:-4g} ${TLC_JVM_OPTS:-} -Djava.io.tmpdir="${TLC_TMP:-/tmp}" \
   -cp /opt/veriftools/tla/tla2tools.jar:/opt/veriftools/tla/CommunityModules-deps.jar \
   tlc2.TLC -workers "$W" -fpmem 0.05 -metadir "$MD" -cleanup -noGenerateSpecTE -config "$CFG" "$@" "$TLA"
